@@ -52,6 +52,14 @@ func subset(want, got interface{}, path string) string {
 			return path + ": not an object"
 		}
 		for k, wv := range w {
+			if len(k) > 1 && k[0] == 'n' { // "nX": the value of X must DIFFER from this one
+				if gv, ok := g[k[1:]]; ok {
+					if fmt.Sprint(wv) == fmt.Sprint(gv) {
+						return fmt.Sprintf("%s.%s: must not be %v", path, k[1:], wv)
+					}
+					continue
+				}
+			}
 			gv, ok := g[k]
 			if !ok {
 				return path + "." + k + ": missing"
@@ -188,8 +196,11 @@ func runReplay(job *Job) Result {
 		}
 		if r.Src == "decl" {
 			okv := verdict == r.Err
+			if r.Err == "ERR" && isErrVerdict(verdict) {
+				okv = true
+			}
 			for _, e := range r.Errs {
-				if e == verdict {
+				if e == verdict || (e == "ERR" && isErrVerdict(verdict)) {
 					okv = true
 				}
 			}
